@@ -190,6 +190,8 @@ def run_check(prop: str, tier: str, seed: int, workers: int, segments: int | Non
                 "components": drv.COMPONENTS,
                 "event_log_sha256": core.short(core.canon([[r["k"], r["digest"]] for r in results]), 64),
                 "workers": workers,
+                "max_segment_wall_s": max([r.get("t", 0) for r in results] or [0]),
+                "slowest_segment": max(results, key=lambda r: r.get("t", 0))["k"] if results else None,
                 "harness_errors": len(harness),
             },
             "assumptions": drv.ASSUMPTIONS,
@@ -206,6 +208,9 @@ def run_check(prop: str, tier: str, seed: int, workers: int, segments: int | Non
         with open(os.path.join(VERIF, "evidence", f"{prop}.json"), "w") as f:
             json.dump(ev, f, indent=1, sort_keys=True)
 
+    if results:
+        slow = max(results, key=lambda r: r.get("t", 0))
+        _print(f"[{prop}] slowest segment k={slow['k']} took {slow.get('t', 0)}s (timeout {getattr(drv, 'SEGMENT_TIMEOUT', 300)}s)")
     _print(f"[{prop}] segments={done}/{nseg} ops={sum(merged['ops'].values())} "
            f"nontrivial={len(merged['nontrivial'])} states={len(merged['states'])} "
            f"faults={sum(merged['faults'].values())} known_hits={sum(merged['known'].values())} wall={wall_s:.1f}s")
